@@ -249,15 +249,17 @@ fn expected_list(conv: &Converter, r: &ScaledRecipe, into: &mut BTreeMap<String,
 fn recipes(ctx: &mut Ctx, conv: &Converter) {
     let parser = CooklangParser::new(Extensions::all(), conv.clone());
     let n = ctx.budget(4_000, 600_000);
-    let opts = GenOpts::extended();
-    for _ in 0..n {
+    let (plain, mixed) = (GenOpts::extended(), GenOpts::extended_mixed());
+    for it in 0..n {
+        // half of the recipes let references change the quantity class (text after number, other units)
+        let opts = if it % 2 == 0 { &plain } else { &mixed };
         let seed = ctx.rng.next();
         let mut r = Rng::new(seed);
         let nrec = r.range(1, 4);
         let mut texts = Vec::new();
         let mut scaled: Vec<ScaledRecipe> = Vec::new();
         for _ in 0..nrec {
-            let spec = g::gen_spec(&mut r, &opts);
+            let spec = g::gen_spec(&mut r, opts);
             let sp = g::spell(&spec, r.next(), feat::ALL, 1);
             let Ok(res) = crate::core::guarded(|| parser.parse(&sp.text)) else { continue };
             if !res.is_valid() {
